@@ -2,7 +2,7 @@
    Statements only; proofs in Proofs/SliceProofs.v.  Integer ticks; full_score = every chord has at least one
    part and every part lasts as long as its chord (the statement's guard), durations >= 0. *)
 From ML Require Import Spec.RenderSpec.
-From ML Require Import Model.Types gen.Tables Model.Pitch Model.Rel Model.Render Model.Slice Proofs.RenderProofs Proofs.SliceProofs Proofs.SliceContent Proofs.SliceZero Proofs.SliceRejoin Proofs.SliceScore Proofs.RenderTonProofs Proofs.RenderOctave Proofs.SliceSound.
+From ML Require Import Model.Types gen.Tables Model.Pitch Model.Rel Model.Render Model.Slice Proofs.RenderProofs Proofs.SliceProofs Proofs.SliceContent Proofs.SliceZero Proofs.SliceRejoin Proofs.SliceScore Proofs.RenderTonProofs Proofs.RenderOctave Proofs.SliceSound Proofs.SliceSoundScore.
 From Coq Require Import Lia.
 Open Scope Z_scope.
 Open Scope list_scope.
@@ -117,6 +117,27 @@ Theorem C12_score_window_notes : forall track s a b w, String.prefix "drums" tra
   score_between s 0 a b = Some w ->
   map snd (tl w track) = clip_list (map snd (tl s track)) 0 a b /\ incl (map fst (tl w track)) (map fst (tl s track)).
 Proof. intros track s a b w. exact (score_between_notes track s a b w). Qed.
+
+(* THE STATEMENT'S FIRST SENTENCE, for a whole score: the window [a, b) of a score sounds, in every (non-drum) part that is present in
+   every chord, lasts each and is made of notes that need no reference pitch, exactly the part's sounding notes that start inside the
+   window, clipped at b and shifted by -a - each under the chord it is written under, wherever the chord boundaries fall *)
+Theorem C12_score_window_sounding : forall track s a b w sl, String.prefix "drums" track = false ->
+  full_score s -> clean_score s track -> 0 <= a -> a < b ->
+  forallb (item_ok plain_pitched) (items s track 0) = true ->
+  score_between s 0 a b = Some w -> sounding_of s track = Some sl ->
+  sounding_of w track = Some (filter_map (win a b) sl).
+Proof. exact score_window_sounding. Qed.
+
+(* non-vacuity: I (s0 2, s1 2) + V (s2 held 4) in C major, window [1, 6): s0 is silent (already sounding), s1 starts at 1, the s2 of
+   V (pitch 11) starts at 3 and is clipped to 2 *)
+Example C12_ex_score_window_sounding :
+  let nt k v du := mkTN (mkP k Abs v 0 None None) du 66 in
+  let s := [mkRC (mkC 0 (bare "") (mkT 0 MMaj 0) 0) [("p"%string, [nt KS 0 2; nt KS 1 2])];
+            mkRC (mkC 4 (bare "") (mkT 0 MMaj 0) 0) [("p"%string, [nt KS 2 4])]] in
+  sounding_of s "p" = Some [mkSN 0 0 2 66; mkSN 2 2 2 66; mkSN 11 4 4 66] /\
+  (do w <- score_between s 0 1 6 ;; sounding_of w "p") = Some [mkSN 2 1 2 66; mkSN 11 3 2 66] /\
+  filter_map (win 1 6) [mkSN 0 0 2 66; mkSN 2 2 2 66; mkSN 11 4 4 66] = [mkSN 2 1 2 66; mkSN 11 3 2 66].
+Proof. vm_compute. repeat split; reflexivity. Qed.
 
 (* cutting a score at any time t inside it and putting the two pieces one after the other: the duration is the original's and
    every part present throughout SOUNDS exactly as before - the sounding notes of the Spec of C03 (pitch under its chord, onset,
